@@ -98,6 +98,20 @@ Theorem C13_stop_is_final : forall s es,
   m_recv s' = m_recv s /\ m_conns s' = m_conns s /\ m_estab s' = m_estab s.
 Proof. exact stop_is_final. Qed.
 
+(* The two failures that look alike on the wire and are opposite: a connection that ends in
+   the middle of the TLS handshake (at whatever offset of a record) is retried -- the loop is
+   still there -- while rejected credentials end the loop also when the server hangs up
+   before the client has closed its stream. *)
+Theorem C13_handshake_cut_retried_hangup_final : forall sm es0 es,
+  let s := m_run repaired (m_init sm) es0 in
+  m_phase s = MRetry ->
+  (let s1 := m_step repaired s (EAttempt handshake_cut) in
+   m_phase s1 = MRetry /\ m_loops s1 = 1 /\ m_sessions s1 = m_sessions s /\ is_noise (EAttempt handshake_cut) = true) /\
+  (let s2 := m_run repaired s (EAttempt rejected_then_hung_up :: es) in
+   m_sessions s2 = m_sessions s /\ m_post s2 = m_post s /\ m_conns s2 = S (m_conns s) /\
+   (m_phase s2 = MDead \/ m_phase s2 = MReturned)).
+Proof. exact handshake_cut_retried_hangup_final. Qed.
+
 (* ---- the statements above are false for the code as it was ---- *)
 (* the reader of a failed attempt reported a loss (repaired in cccf687) *)
 Theorem C13_stale_reader_refuted :
@@ -238,6 +252,7 @@ Print Assumptions C13_receiver_reads_current_connection.
 Print Assumptions C13_permanent_stops.
 Print Assumptions C13_stop_returns.
 Print Assumptions C13_stop_is_final.
+Print Assumptions C13_handshake_cut_retried_hangup_final.
 Print Assumptions C13_stale_reader_refuted.
 Print Assumptions C13_old_receiver_refuted.
 Print Assumptions C13_hook_start_refuted.
